@@ -40,7 +40,7 @@ namespace cds_verif {
             else real_.unlock();
         }
         // for monitors/oracles
-        int verif_owner() const { return st_.owner; }
+        int verif_owner() const { return st_.owner - 1; }
     };
 
     typedef basic_mutex<false> mutex;
